@@ -111,8 +111,16 @@ impl<Aux> Vm<'_, Aux> {
                 let mut res = self.init_table()?;
                 let table = res.deref_mut().as_table_mut().unwrap();
                 for OwnedEntry { key, value } in o.iter() {
+                    // until they are stored in the table nothing else refers to the new key and
+                    // value: guard them against the collections that the next allocations may run
+                    let guard = |v: Value| match v {
+                        Value::Object(o) => Some(ObjectGcGuard::new(o)),
+                        _ => None,
+                    };
                     let key = self.insert_value(key)?;
+                    let _key_guard = guard(key);
                     let value = self.insert_value(value)?;
+                    let _value_guard = guard(value);
                     table.insert(key, value)?;
                 }
                 Value::Object(res.0)
